@@ -1,5 +1,8 @@
 import Hcl.Proofs.AcceptedValid
 import Hcl.Model.Program
+import Hcl.Proofs.Step1Tables
+import Hcl.Proofs.FlagIndep
+import Hcl.Proofs.ActionsVerdict
 open Rust
 
 /-!
@@ -117,3 +120,98 @@ theorem C09_accepted (fl : Flags) (cls : CharClass) (o : Orders) (stmts : List S
   · intro a ha
     have := hfin a ha
     cases a <;> simp_all [Action.isPure, Action.writes]
+
+/-! ### at the level of the statements -/
+
+/-- **C09, "a declared wire that is never assigned"**: in an accepted program every wire declared by a `wire` statement
+    is the target of some assignment statement -- read the other way, a program that declares a wire and never assigns
+    it is rejected, under every iteration order and every flag set. -/
+theorem C09_declared_wire_is_assigned (fl : Flags) (cls : CharClass) (o : Orders) (stmts : List Stmt) (p : Program)
+    (h : Program.new fl cls o y86FixedFunctions stmts = .ok p) (n : String) (hd : DeclaredWire stmts n) :
+    AssignedIn stmts n := by
+  have hneed : n ∈ (step1Of stmts).needed := by
+    unfold step1Of
+    rw [step1_fold_needed]
+    exact Or.inr hd
+  have hass := Program_new_needed fl cls o stmts p h n hneed
+  unfold step1Of at hass
+  rw [step1_fold_assignments] at hass
+  rcases hass with h0 | h1
+  · have : (step1Init y86FixedFunctions).assignments = [] := by decide +kernel
+    rw [this] at h0
+    simp [AMap.contains] at h0
+  · exact h1
+
+example : DeclaredWire [.wires [⟨"x", .bits 8⟩], .assigns [⟨["x"], .const ⟨1, .unlimited⟩⟩]] "x" :=
+  ⟨_, List.mem_cons_self, _, List.mem_cons_self, rfl⟩
+
+/-- **C09, "assigned twice"**: in an accepted program no name is the target of two assignments -- neither in two
+    statements nor twice in one (`a = a = 1`, `a = 1, a = 2`): the list of all targets has no repetition.  Read the
+    other way, a program that assigns a name twice is rejected, under every iteration order and flag set. -/
+theorem C09_no_name_assigned_twice (fl : Flags) (cls : CharClass) (o : Orders) (stmts : List Stmt) (p : Program)
+    (h : Program.new fl cls o y86FixedFunctions stmts = .ok p) : (allTargets stmts).Nodup := by
+  have hclean : (step1Of stmts).errors = [] := by
+    unfold Program.new at h
+    simp only at h
+    generalize hs1 : List.foldl (step1Stmt _ _) (step1Init y86FixedFunctions) stmts = s1 at h
+    have hs1' : step1Of stmts = s1 := hs1
+    rw [hs1']
+    split at h
+    · simp at h
+    · rename_i herrs1
+      simp only [Bool.not_eq_true', List.isEmpty_eq_false_iff, ne_eq, Decidable.not_not, List.append_eq_nil_iff] at herrs1
+      exact herrs1.1.1
+  unfold step1Of at hclean
+  exact (step1_fold_clean _ _ stmts _ hclean).2.1
+
+example : ¬ (allTargets [.assigns [⟨["a", "a"], .const ⟨1, .unlimited⟩⟩]]).Nodup := by decide
+
+/-- **C09, "declared twice"**: in an accepted program no name is declared by two `wire`/`const` declarations (in one
+    statement or in several), and none of them redeclares a built-in wire -- a program that does is rejected. -/
+theorem C09_no_name_declared_twice (fl : Flags) (cls : CharClass) (o : Orders) (stmts : List Stmt) (p : Program)
+    (h : Program.new fl cls o y86FixedFunctions stmts = .ok p) :
+    (allDeclared stmts).Nodup ∧ ∀ n ∈ allDeclared stmts, n ∉ fixedNamesOf y86FixedFunctions := by
+  have hclean : (step1Of stmts).errors = [] := by
+    unfold Program.new at h
+    simp only at h
+    generalize hs1 : List.foldl (step1Stmt _ _) (step1Init y86FixedFunctions) stmts = s1 at h
+    have hs1' : step1Of stmts = s1 := hs1
+    rw [hs1']
+    split at h
+    · simp at h
+    · rename_i herrs1
+      simp only [Bool.not_eq_true', List.isEmpty_eq_false_iff, ne_eq, Decidable.not_not, List.append_eq_nil_iff] at herrs1
+      exact herrs1.1.1
+  unfold step1Of at hclean
+  obtain ⟨_, h2, h3, _⟩ := step1_fold_decl_clean _ _ stmts _ hclean
+  refine ⟨h2, ?_⟩
+  intro n hn hm
+  have := (h3 n hn).2
+  rw [List.contains_eq_mem, decide_eq_false_iff_not] at this
+  exact this hm
+
+example : ¬ (allDeclared [.wires [⟨"a", .bits 1⟩], .consts [⟨"a", .const ⟨1, .unlimited⟩⟩]]).Nodup := by decide
+example : "pc" ∈ fixedNamesOf y86FixedFunctions := by decide
+
+/-- **C09, "used without being declared"**: in an accepted program every name that the right-hand side of an assignment
+    mentions has a width in the program's width table (it is a declared wire, a constant, a register signal or a
+    built-in wire) -- a program that reads an undeclared name is rejected. -/
+theorem C09_read_names_declared (fl : Flags) (cls : CharClass) (o : Orders) (stmts : List Stmt) (p : Program)
+    (ho : OrdersOK o) (hwf : StmtsWF stmts) (h : Program.new fl cls o y86FixedFunctions stmts = .ok p) :
+    ∀ n e, (step1Of stmts).assignments.get? n = some e → ∀ x ∈ refs e,
+      ((finalWires (step1Of stmts) p.constants (step3Of fl cls (step1Of stmts) p.constants)).get? x).isSome = true := by
+  obtain ⟨s1, c, s3, k, hyp, _, hact, hpc, _, _, e1, _, e3, _, _, _⟩ := Program_new_decompose' fl cls o stmts p hwf h
+  subst e1
+  subst hpc
+  subst e3
+  intro n e hne x hx
+  obtain ⟨w, ew, _, h2, _⟩ := assignmentsToActions_rules fl o _ _ _ _ _ _ p.actions ho y86Fixed_table hyp.s1inv.aKeys hact n e hne
+  exact check_refs_declared e ew h2 x hx
+
+/-- **C09, "assigns a name that already has a driver"**: in an accepted program no assignment target is a constant -/
+theorem C09_constants_not_assigned (fl : Flags) (cls : CharClass) (o : Orders) (stmts : List Stmt) (p : Program)
+    (hwf : StmtsWF stmts) (h : Program.new fl cls o y86FixedFunctions stmts = .ok p) :
+    ∀ n ∈ (step1Of stmts).assigned, (step1Of stmts).constantsRaw.contains n = false := by
+  obtain ⟨s1, _, _, _, _, _, _, _, _, hac, e1, _⟩ := Program_new_decompose' fl cls o stmts p hwf h
+  subst e1
+  exact hac
